@@ -13,6 +13,13 @@
 //!     C            offer a connection (index = order of offering) and connect a client over it
 //!     U<c>:<s>     start a unary call on connection c; handler will answer status s (0 = OK + message)
 //!     S<c>:<n>:<s> start a server-streaming call: headers, n messages, then status s
+//!     Q<c>:<m>:<s> start a client-streaming call: the client will send m request messages (one per
+//!                  `M` step, the last one half-closes; m = 0: half-closed at once); the handler reads
+//!                  the request stream to its end, then (one phase) answers like a unary one
+//!     B<c>:<m>:<n>:<s> start a bidi call: m request messages as for Q; the handler sends headers, n
+//!                  messages (one phase each), then - last phase - reads the request stream to its
+//!                  end and sends status s
+//!     M<k>         the client of call k sends its next request message
 //!     A<k>         let the handler of call k advance one phase
 //!     G            fire the shutdown signal
 //!     E            end the incoming stream
@@ -24,7 +31,8 @@
 //!                  the server depends on the clock gets its chance to fire
 //!     T            = W3600 (virtual time passes max_connection_age)
 //!   D, X, W and T must follow and be quiescent steps.
-//!   After the script: all handlers free-run (drain), quiescent point, then every client is dropped.
+//!   After the script: every client completes its request stream and all handlers free-run (drain),
+//!   quiescent point, then every client is dropped.
 //!
 //! Time = number of quiescent points passed (a quiescent point = the paused-clock runtime went idle:
 //! `sleep(1ms)` only returns once no task is runnable).  Steps joined by `~k` share one instant.
@@ -58,6 +66,9 @@ enum Op {
     Conn,
     Unary(usize, i32),
     Stream(usize, usize, i32),
+    CStream(usize, usize, i32),
+    Bidi(usize, usize, usize, i32),
+    ReqMsg(usize),
     Adv(usize),
     Sig,
     EndIncoming,
@@ -128,6 +139,31 @@ fn parse(case: &str) -> Option<Script> {
                 ncall += 1;
                 Op::Stream(c, n.parse().ok()?, s.parse().ok()?)
             }
+            ("Q", [c, m, s]) => {
+                let c: usize = c.parse().ok()?;
+                let m: usize = m.parse().ok()?;
+                if c >= nconn || m > 64 {
+                    return None;
+                }
+                ncall += 1;
+                Op::CStream(c, m, s.parse().ok()?)
+            }
+            ("B", [c, m, n, s]) => {
+                let c: usize = c.parse().ok()?;
+                let m: usize = m.parse().ok()?;
+                if c >= nconn || m > 64 {
+                    return None;
+                }
+                ncall += 1;
+                Op::Bidi(c, m, n.parse().ok()?, s.parse().ok()?)
+            }
+            ("M", [k]) => {
+                let k: usize = k.parse().ok()?;
+                if k >= ncall {
+                    return None;
+                }
+                Op::ReqMsg(k)
+            }
             ("A", [k]) => {
                 let k: usize = k.parse().ok()?;
                 if k >= ncall {
@@ -182,10 +218,19 @@ struct ConnRec {
     closed_at: Option<usize>,
 }
 
+#[derive(Clone, Copy, PartialEq, Debug)]
+enum Kind {
+    Unary,
+    SStream,
+    CStream,
+    Bidi,
+}
+
 struct CallRec {
     n: usize, // messages the handler intends to send (unary: 1 if status 0 else 0)
+    m: usize, // request messages the client is going to send (client-streaming and bidi)
     status: i32,
-    streaming: bool,
+    kind: Kind,
     gate: Arc<Semaphore>,
     started: bool,
     hdr: Option<bool>, // Some(true) good, Some(false) bad
@@ -206,6 +251,11 @@ struct Shared {
 }
 
 type Sh = Arc<Mutex<Shared>>;
+
+/// j-th request message of a client-streaming / bidi call
+fn req_message(k: usize, j: usize, len: usize) -> Vec<u8> {
+    message(k + 7919, j + 3, len)
+}
 
 fn message(k: usize, j: usize, len: usize) -> Vec<u8> {
     (0..len).map(|i| (k.wrapping_mul(31) + j.wrapping_mul(7) + i.wrapping_mul(13) + 1) as u8).collect()
@@ -372,8 +422,33 @@ struct GatedStream {
     status: i32,
     payload: usize,
     done: bool,
-    wait: Option<BoxFut<()>>,
+    wait: Option<BoxFut<bool>>,
     gate: Arc<Semaphore>,
+    /// bidi: the request stream (read to its end in the last phase) and the expected count
+    req: Option<(tonic::Streaming<Vec<u8>>, usize)>,
+}
+
+fn meta_k<T>(req: &Request<T>) -> Option<usize> {
+    req.metadata().get("x-k")?.to_str().ok()?.parse().ok()
+}
+
+/// read a request stream to its end; true iff exactly the m expected messages came, in order
+async fn drain_requests(mut s: tonic::Streaming<Vec<u8>>, k: usize, m: usize, payload: usize) -> bool {
+    let mut count = 0usize;
+    let mut good = true;
+    loop {
+        match s.message().await {
+            Ok(Some(b)) => {
+                if b != req_message(k, count, payload) {
+                    good = false;
+                }
+                count += 1;
+            }
+            Ok(None) => break,
+            Err(_) => return false,
+        }
+    }
+    good && count == m
 }
 
 impl futures_core::Stream for GatedStream {
@@ -384,14 +459,25 @@ impl futures_core::Stream for GatedStream {
         }
         if self.wait.is_none() {
             let gate = self.gate.clone();
+            let last = self.j >= self.n;
+            let req = if last { self.req.take() } else { None };
+            let (k, payload) = (self.k, self.payload);
             self.wait = Some(Box::pin(async move {
                 gate.acquire().await.unwrap().forget();
+                match req {
+                    Some((s, m)) => drain_requests(s, k, m, payload).await,
+                    None => true,
+                }
             }));
         }
         match self.wait.as_mut().unwrap().as_mut().poll(cx) {
             Poll::Pending => Poll::Pending,
-            Poll::Ready(()) => {
+            Poll::Ready(req_ok) => {
                 self.wait = None;
+                if !req_ok {
+                    self.done = true;
+                    return Poll::Ready(Some(Err(Status::internal("badreq"))));
+                }
                 if self.j < self.n {
                     let m = message(self.k, self.j, self.payload);
                     self.j += 1;
@@ -424,7 +510,65 @@ impl tonic::server::ServerStreamingService<Vec<u8>> for StreamSvc {
                 (g.calls[k].gate.clone(), g.calls[k].status, g.payload, g.calls[k].n)
             };
             gate.acquire().await.unwrap().forget();
-            let mut r = Response::new(GatedStream { k, j: 0, n, status, payload, done: false, wait: None, gate });
+            let mut r = Response::new(GatedStream { k, j: 0, n, status, payload, done: false, wait: None, gate, req: None });
+            r.metadata_mut().insert("x-k", k.to_string().parse().unwrap());
+            Ok(r)
+        })
+    }
+}
+
+struct CStreamSvc(Sh);
+impl tonic::server::ClientStreamingService<Vec<u8>> for CStreamSvc {
+    type Response = Vec<u8>;
+    type Future = BoxFut<Result<Response<Vec<u8>>, Status>>;
+    fn call(&mut self, request: Request<tonic::Streaming<Vec<u8>>>) -> Self::Future {
+        let sh = self.0.clone();
+        Box::pin(async move {
+            let k = match meta_k(&request) {
+                Some(k) if k < sh.lock().unwrap().calls.len() => k,
+                _ => return Err(Status::internal("nok")),
+            };
+            let (gate, status, payload, m) = {
+                let mut g = sh.lock().unwrap();
+                g.calls[k].started = true;
+                (g.calls[k].gate.clone(), g.calls[k].status, g.payload, g.calls[k].m)
+            };
+            let req_ok = drain_requests(request.into_inner(), k, m, payload).await;
+            gate.acquire().await.unwrap().forget();
+            if !req_ok {
+                return Err(Status::internal("badreq"));
+            }
+            if status == 0 {
+                let mut r = Response::new(message(k, 0, payload));
+                r.metadata_mut().insert("x-k", k.to_string().parse().unwrap());
+                Ok(r)
+            } else {
+                Err(status_of(k, status))
+            }
+        })
+    }
+}
+
+struct BidiSvc(Sh);
+impl tonic::server::StreamingService<Vec<u8>> for BidiSvc {
+    type Response = Vec<u8>;
+    type ResponseStream = GatedStream;
+    type Future = BoxFut<Result<Response<GatedStream>, Status>>;
+    fn call(&mut self, request: Request<tonic::Streaming<Vec<u8>>>) -> Self::Future {
+        let sh = self.0.clone();
+        Box::pin(async move {
+            let k = match meta_k(&request) {
+                Some(k) if k < sh.lock().unwrap().calls.len() => k,
+                _ => return Err(Status::internal("nok")),
+            };
+            let (gate, status, payload, n, m) = {
+                let mut g = sh.lock().unwrap();
+                g.calls[k].started = true;
+                (g.calls[k].gate.clone(), g.calls[k].status, g.payload, g.calls[k].n, g.calls[k].m)
+            };
+            gate.acquire().await.unwrap().forget();
+            let req = Some((request.into_inner(), m));
+            let mut r = Response::new(GatedStream { k, j: 0, n, status, payload, done: false, wait: None, gate, req });
             r.metadata_mut().insert("x-k", k.to_string().parse().unwrap());
             Ok(r)
         })
@@ -448,6 +592,14 @@ impl tower_service::Service<http::Request<tonic::body::Body>> for GateSvc {
             "/verif.Gate/Stream" => Box::pin(async move {
                 let mut grpc = tonic::server::Grpc::new(RawCodec);
                 Ok(grpc.server_streaming(StreamSvc(sh), req).await)
+            }),
+            "/verif.Gate/CStream" => Box::pin(async move {
+                let mut grpc = tonic::server::Grpc::new(RawCodec);
+                Ok(grpc.client_streaming(CStreamSvc(sh), req).await)
+            }),
+            "/verif.Gate/Bidi" => Box::pin(async move {
+                let mut grpc = tonic::server::Grpc::new(RawCodec);
+                Ok(grpc.streaming(BidiSvc(sh), req).await)
             }),
             _ => Box::pin(async move {
                 let mut response = http::Response::new(tonic::body::Body::default());
@@ -481,15 +633,98 @@ fn check_hdr(k: usize, md: &tonic::metadata::MetadataMap) -> bool {
     md.get("x-k").and_then(|v| v.to_str().ok()).map(|v| v == k.to_string()).unwrap_or(false)
 }
 
-async fn client_call(sh: Sh, ch: tonic::transport::Channel, k: usize) {
-    let (streaming, payload) = {
+struct ReqStream(mpsc::UnboundedReceiver<Vec<u8>>);
+
+impl futures_core::Stream for ReqStream {
+    type Item = Vec<u8>;
+    fn poll_next(mut self: Pin<&mut Self>, cx: &mut Context<'_>) -> Poll<Option<Vec<u8>>> {
+        self.0.poll_recv(cx)
+    }
+}
+
+fn record_unary_result(sh: &Sh, k: usize, payload: usize, r: Result<Response<Vec<u8>>, Status>) {
+    match r {
+        Ok(resp) => {
+            let good_hdr = check_hdr(k, resp.metadata());
+            let good = resp.get_ref() == &message(k, 0, payload);
+            {
+                let mut g = sh.lock().unwrap();
+                g.calls[k].hdr = Some(good_hdr);
+                if good {
+                    g.calls[k].msgs += 1;
+                } else {
+                    g.calls[k].bad = true;
+                }
+            }
+            finish(sh, k, "s0".into());
+        }
+        Err(st) => finish(sh, k, status_token(k, &st)),
+    }
+}
+
+async fn record_stream_result(sh: &Sh, k: usize, payload: usize, r: Result<Response<tonic::Streaming<Vec<u8>>>, Status>) {
+    match r {
+        Ok(resp) => {
+            let good_hdr = check_hdr(k, resp.metadata());
+            sh.lock().unwrap().calls[k].hdr = Some(good_hdr);
+            let mut s = resp.into_inner();
+            loop {
+                match s.message().await {
+                    Ok(Some(m)) => {
+                        let mut g = sh.lock().unwrap();
+                        let j = g.calls[k].msgs;
+                        if !g.calls[k].bad && m == message(k, j, payload) {
+                            g.calls[k].msgs += 1;
+                        } else {
+                            g.calls[k].bad = true;
+                        }
+                    }
+                    Ok(None) => {
+                        finish(sh, k, "s0".into());
+                        break;
+                    }
+                    Err(st) => {
+                        finish(sh, k, status_token(k, &st));
+                        break;
+                    }
+                }
+            }
+        }
+        Err(st) => finish(sh, k, status_token(k, &st)),
+    }
+}
+
+async fn client_call(sh: Sh, ch: tonic::transport::Channel, k: usize, rx: Option<mpsc::UnboundedReceiver<Vec<u8>>>) {
+    let (kind, payload) = {
         let g = sh.lock().unwrap();
-        (g.calls[k].streaming, g.payload)
+        (g.calls[k].kind, g.payload)
     };
+    let streaming = kind == Kind::SStream;
     let mut grpc = tonic::client::Grpc::new(ch);
     if let Err(e) = grpc.ready().await {
         let _ = e;
         finish(&sh, k, "s14!".into());
+        return;
+    }
+    if kind == Kind::CStream || kind == Kind::Bidi {
+        let (_keep, rx) = match rx {
+            Some(rx) => (None, rx),
+            None => {
+                let (tx, rx) = mpsc::unbounded_channel();
+                (Some(tx), rx)
+            }
+        };
+        let mut req = Request::new(ReqStream(rx));
+        req.metadata_mut().insert("x-k", k.to_string().parse().unwrap());
+        if kind == Kind::CStream {
+            let path = http::uri::PathAndQuery::from_static("/verif.Gate/CStream");
+            let r = grpc.client_streaming::<_, Vec<u8>, Vec<u8>, _>(req, path, RawCodec).await;
+            record_unary_result(&sh, k, payload, r);
+        } else {
+            let path = http::uri::PathAndQuery::from_static("/verif.Gate/Bidi");
+            let r = grpc.streaming::<_, Vec<u8>, Vec<u8>, _>(req, path, RawCodec).await;
+            record_stream_result(&sh, k, payload, r).await;
+        }
         return;
     }
     let mut body = (k as u32).to_be_bytes().to_vec();
@@ -498,58 +733,30 @@ async fn client_call(sh: Sh, ch: tonic::transport::Channel, k: usize) {
     body.extend(std::iter::repeat(0xA5u8).take(payload));
     if !streaming {
         let path = http::uri::PathAndQuery::from_static("/verif.Gate/Unary");
-        match grpc.unary::<Vec<u8>, Vec<u8>, _>(Request::new(body), path, RawCodec).await {
-            Ok(resp) => {
-                let good_hdr = check_hdr(k, resp.metadata());
-                let good = resp.get_ref() == &message(k, 0, payload);
-                {
-                    let mut g = sh.lock().unwrap();
-                    g.calls[k].hdr = Some(good_hdr);
-                    if good {
-                        g.calls[k].msgs += 1;
-                    } else {
-                        g.calls[k].bad = true;
-                    }
-                }
-                finish(&sh, k, "s0".into());
-            }
-            Err(st) => finish(&sh, k, status_token(k, &st)),
-        }
+        let r = grpc.unary::<Vec<u8>, Vec<u8>, _>(Request::new(body), path, RawCodec).await;
+        record_unary_result(&sh, k, payload, r);
     } else {
         let path = http::uri::PathAndQuery::from_static("/verif.Gate/Stream");
-        match grpc.server_streaming::<Vec<u8>, Vec<u8>, _>(Request::new(body), path, RawCodec).await {
-            Ok(resp) => {
-                let good_hdr = check_hdr(k, resp.metadata());
-                sh.lock().unwrap().calls[k].hdr = Some(good_hdr);
-                let mut s = resp.into_inner();
-                loop {
-                    match s.message().await {
-                        Ok(Some(m)) => {
-                            let mut g = sh.lock().unwrap();
-                            let j = g.calls[k].msgs;
-                            if !g.calls[k].bad && m == message(k, j, payload) {
-                                g.calls[k].msgs += 1;
-                            } else {
-                                g.calls[k].bad = true;
-                            }
-                        }
-                        Ok(None) => {
-                            finish(&sh, k, "s0".into());
-                            break;
-                        }
-                        Err(st) => {
-                            finish(&sh, k, status_token(k, &st));
-                            break;
-                        }
-                    }
-                }
-            }
-            Err(st) => finish(&sh, k, status_token(k, &st)),
-        }
+        let r = grpc.server_streaming::<Vec<u8>, Vec<u8>, _>(Request::new(body), path, RawCodec).await;
+        record_stream_result(&sh, k, payload, r).await;
     }
 }
 
 // ---------------------------------------------------------------- scenario runner
+
+/// the open request side of a client-streaming / bidi call: (sender, messages sent, messages to send)
+type ReqTx = Option<(mpsc::UnboundedSender<Vec<u8>>, usize, usize)>;
+
+/// the client sends the next request message of call k; the last one closes the request stream
+fn send_req(slot: &mut ReqTx, k: usize, payload: usize) {
+    if let Some((tx, sent, m)) = slot {
+        let _ = tx.send(req_message(k, *sent, payload));
+        *sent += 1;
+        if *sent >= *m {
+            *slot = None;
+        }
+    }
+}
 
 async fn settle() {
     tokio::time::sleep(Duration::from_millis(1)).await;
@@ -605,6 +812,7 @@ async fn run(sc: Script) -> String {
 
     let mut channels: Vec<Option<tonic::transport::Channel>> = Vec::new();
     let mut call_tasks: Vec<(usize, tokio::task::JoinHandle<()>)> = Vec::new(); // (conn, task) by call index
+    let mut req_tx: Vec<ReqTx> = Vec::new(); // request side of call k, while it is still open
 
     let mut t = 0usize; // time = number of quiescent points passed
     for step in sc.steps.iter() {
@@ -636,17 +844,29 @@ async fn run(sc: Script) -> String {
                     .await;
                 channels.push(r.ok());
             }
-            Op::Unary(c, s) | Op::Stream(c, _, s) => {
-                let (streaming, n) = match step.op {
-                    Op::Stream(_, n, _) => (true, n),
-                    _ => (false, if s == 0 { 1 } else { 0 }),
+            Op::Unary(c, s) | Op::Stream(c, _, s) | Op::CStream(c, _, s) | Op::Bidi(c, _, _, s) => {
+                let (kind, n, m) = match step.op {
+                    Op::Stream(_, n, _) => (Kind::SStream, n, 0),
+                    Op::CStream(_, m, _) => (Kind::CStream, if s == 0 { 1 } else { 0 }, m),
+                    Op::Bidi(_, m, n, _) => (Kind::Bidi, n, m),
+                    _ => (Kind::Unary, if s == 0 { 1 } else { 0 }, 0),
+                };
+                // request side of client-streaming / bidi calls: fed by the `M` steps
+                let rx = if kind == Kind::CStream || kind == Kind::Bidi {
+                    let (tx, rx) = mpsc::unbounded_channel::<Vec<u8>>();
+                    req_tx.push(if m > 0 { Some((tx, 0usize, m)) } else { None });
+                    Some(rx)
+                } else {
+                    req_tx.push(None);
+                    None
                 };
                 let k = {
                     let mut g = sh.lock().unwrap();
                     g.calls.push(CallRec {
                         n,
+                        m,
                         status: s,
-                        streaming,
+                        kind,
                         gate: Arc::new(Semaphore::new(0)),
                         started: false,
                         hdr: None,
@@ -659,7 +879,7 @@ async fn run(sc: Script) -> String {
                 };
                 match channels[c].clone() {
                     Some(ch) => {
-                        let h = tokio::spawn(client_call(sh.clone(), ch, k));
+                        let h = tokio::spawn(client_call(sh.clone(), ch, k, rx));
                         call_tasks.push((c, h));
                     }
                     None => {
@@ -667,6 +887,9 @@ async fn run(sc: Script) -> String {
                         call_tasks.push((c, tokio::spawn(async {})));
                     }
                 }
+            }
+            Op::ReqMsg(k) => {
+                send_req(&mut req_tx[k], k, sc.payload);
             }
             Op::Adv(k) => {
                 let gate = sh.lock().unwrap().calls[k].gate.clone();
@@ -687,15 +910,19 @@ async fn run(sc: Script) -> String {
                 }
             }
             Op::DropConn(c) => {
-                for (cc, h) in call_tasks.iter() {
+                for (k, (cc, h)) in call_tasks.iter().enumerate() {
                     if *cc == c {
                         h.abort();
+                        // an abandoned call's request stream ends too (hyper owns it, not the
+                        // aborted task): without this the stream - and the connection - stay up
+                        req_tx[k] = None;
                     }
                 }
                 channels[c] = None;
             }
             Op::Cancel(k) => {
                 call_tasks[k].1.abort();
+                req_tx[k] = None;
             }
             Op::Wait(secs) => {
                 tokio::time::sleep(Duration::from_secs(secs)).await;
@@ -707,8 +934,13 @@ async fn run(sc: Script) -> String {
         }
     }
     let nsteps = t;
-    // drain: every handler runs freely
+    // drain: every client completes its request stream, every handler runs freely
     sh.lock().unwrap().step = nsteps;
+    for (k, slot) in req_tx.iter_mut().enumerate() {
+        while slot.is_some() {
+            send_req(slot, k, sc.payload);
+        }
+    }
     {
         let g = sh.lock().unwrap();
         for c in g.calls.iter() {
@@ -789,11 +1021,20 @@ const PAYLOADS_BIG: [usize; 8] = [16379, 16380, 16384, 20000, 65530, 65535, 6553
 const CODES: [i32; 4] = [0, 0, 5, 13];
 
 #[derive(Clone)]
+struct GCall {
+    /// handler phases needed / released so far
+    phases: usize,
+    released: usize,
+    /// request messages the client has to send / has sent (client-streaming and bidi)
+    req: usize,
+    req_sent: usize,
+}
+
+#[derive(Clone)]
 struct Gen {
     ops: Vec<String>,
     nconn: usize,
-    // per call: (conn, phases needed, phases released so far)
-    calls: Vec<(usize, usize, usize)>,
+    calls: Vec<GCall>,
 }
 
 impl Gen {
@@ -805,22 +1046,60 @@ impl Gen {
         self.nconn += 1;
         self.nconn - 1
     }
+    fn push_call(&mut self, phases: usize, req: usize) -> usize {
+        self.calls.push(GCall { phases, released: 0, req, req_sent: 0 });
+        self.calls.len() - 1
+    }
     fn unary(&mut self, c: usize, s: i32) -> usize {
         self.ops.push(format!("U{}:{}", c, s));
-        self.calls.push((c, 1, 0));
-        self.calls.len() - 1
+        self.push_call(1, 0)
     }
     fn stream(&mut self, c: usize, n: usize, s: i32) -> usize {
         self.ops.push(format!("S{}:{}:{}", c, n, s));
-        self.calls.push((c, n + 2, 0));
-        self.calls.len() - 1
+        self.push_call(n + 2, 0)
+    }
+    fn cstream(&mut self, c: usize, m: usize, s: i32) -> usize {
+        self.ops.push(format!("Q{}:{}:{}", c, m, s));
+        self.push_call(1, m)
+    }
+    fn bidi(&mut self, c: usize, m: usize, n: usize, s: i32) -> usize {
+        self.ops.push(format!("B{}:{}:{}:{}", c, m, n, s));
+        self.push_call(n + 2, m)
     }
     fn adv(&mut self, k: usize) {
         self.ops.push(format!("A{}", k));
-        self.calls[k].2 += 1;
+        self.calls[k].released += 1;
+    }
+    fn reqmsg(&mut self, k: usize) {
+        self.ops.push(format!("M{}", k));
+        self.calls[k].req_sent += 1;
+    }
+    /// a call of a random shape on connection c
+    fn any_call(&mut self, rng: &mut Rng, c: usize) -> usize {
+        let s = *rng.pick(&CODES);
+        let n = *rng.pick(&[0usize, 1, 2, 2, 3]);
+        let m = *rng.pick(&[0usize, 1, 1, 2, 3]);
+        match rng.below(6) {
+            0 | 1 => self.unary(c, s),
+            2 | 3 => self.stream(c, n, s),
+            4 => self.cstream(c, m, s),
+            _ => self.bidi(c, m, n.min(2), s),
+        }
+    }
+    /// one more step of call k: a handler phase or a request message, whichever is still owed
+    fn advance(&mut self, rng: &mut Rng, k: usize) {
+        let c = &self.calls[k];
+        let (can_a, can_m) = (c.released < c.phases, c.req_sent < c.req);
+        if can_m && (!can_a || rng.chance(1, 2)) {
+            self.reqmsg(k);
+        } else if can_a {
+            self.adv(k);
+        }
     }
     fn unfinished(&self) -> Vec<usize> {
-        (0..self.calls.len()).filter(|k| self.calls[*k].2 < self.calls[*k].1).collect()
+        (0..self.calls.len())
+            .filter(|k| self.calls[*k].released < self.calls[*k].phases || self.calls[*k].req_sent < self.calls[*k].req)
+            .collect()
     }
 }
 
@@ -858,19 +1137,13 @@ fn base_scenario(rng: &mut Rng, max_conn: usize, max_calls: usize, finish: bool)
             }
             1 if can_call => {
                 let c = rng.below(g.nconn as u64) as usize;
-                let s = *rng.pick(&CODES);
-                if rng.chance(1, 2) {
-                    g.unary(c, s);
-                } else {
-                    let n = *rng.pick(&[0usize, 1, 2, 2, 3]);
-                    g.stream(c, n, s);
-                }
+                g.any_call(rng, c);
                 issued += 1;
             }
             _ => {
                 if !unf.is_empty() {
                     let k = *rng.pick(&unf);
-                    g.adv(k);
+                    g.advance(rng, k);
                 }
             }
         }
@@ -931,6 +1204,26 @@ fn corpus() -> Vec<String> {
         "sc:corpus g b1024 p10 a0 C U0:0",
         "sc:corpus g b1024 p10 a0 C U0:0 D0 G",
         "sc:corpus g b1024 p10 a1 C U0:0 T C U0:0 U1:0 A0",
+        // client-streaming and bidi calls in flight at the signal; the request body still being sent
+        "sc:corpus g b1024 p10 a0 C Q0:2:0 M0 G M0 A0",
+        "sc:corpus g b1024 p10 a0 C Q0:2:0 G M0 M0 A0",
+        "sc:corpus g b1024 p10 a0 C Q0:2:5 M0 M0 G A0",
+        "sc:corpus g b1024 p10 a0 C Q0:0:0 G A0",
+        "sc:corpus g b1024 p10 a0 C Q0:1:0 A0 G M0",
+        "sc:corpus g b1024 p10 a0 C Q0:3:0 M0 G",
+        "sc:corpus g b1024 p10 a0 C B0:2:2:0 A0 M0 A0 G M0 A0 A0",
+        "sc:corpus g b1024 p10 a0 C B0:1:1:13 G A0 A0 A0 M0",
+        "sc:corpus g b1024 p10 a0 C B0:2:0:0 A0 A0 G M0 M0",
+        "sc:corpus g b1024 p10 a0 C B0:0:3:0 A0 A0 G A0 A0 A0",
+        "sc:corpus g b32 p70000 a0 C Q0:2:0 M0~0 G M0 A0",
+        "sc:corpus g b32 p70000 a0 C B0:2:1:0 M0~0 M0~0 G A0 A0 A0",
+        "sc:corpus g b64 p65536 a0 C U0:0~2 G A0",
+        "sc:corpus g b1024 p10 a0 C Q0:2:0 M0 X0 G",
+        "sc:corpus g b1024 p10 a0 C B0:2:1:0 A0 M0 D0 G",
+        "sc:corpus n b1024 p10 a0 C Q0:1:0 B0:1:1:0 M0 A1 E M1 A0 A1 A1",
+        // several calls on one connection, each in a different phase when the signal fires
+        "sc:corpus g b1024 p10 a0 C U0:0 S0:2:0 Q0:2:0 B0:1:1:0 A1 A1 M2 A3 G A0 A1 M2 A2 M3 A3 A1 A3",
+        "sc:corpus g b100 p300 a0 C S0:3:5 B0:2:2:0 Q0:1:13 U0:5 A0 A0 A1 M1 G M2 A2 A3 A0 A0 A0 M1 A1 A1 A1",
         // time passes (task: anything clock-dependent after the signal must get its chance)
         "sc:corpus g b1024 p10 a0 C U0:0 G W61 A0",
         "sc:corpus g b1024 p10 a0 C S0:2:0 A0 G T A0 A0 A0",
@@ -1004,6 +1297,63 @@ fn placements(out: &mut Vec<String>, rng: &mut Rng, g: &Gen, mode: &str, trig: &
     }
 }
 
+/// several calls on ONE connection, of all four shapes, each advanced to a different phase
+/// (not started / headers sent / mid-stream / request half sent / answered), then the trigger,
+/// then everything finishes in a random order
+fn phases_scenario(rng: &mut Rng, ncalls: usize) -> (Gen, usize) {
+    let mut g = Gen::new();
+    let c = g.conn();
+    for i in 0..ncalls {
+        // make sure every shape occurs when there is room for it
+        let s = *rng.pick(&CODES);
+        match if ncalls >= 4 { i % 4 } else { rng.below(4) as usize } {
+            0 => g.unary(c, s),
+            1 => g.stream(c, *rng.pick(&[1usize, 2, 3]), s),
+            2 => g.cstream(c, *rng.pick(&[1usize, 2, 3]), s),
+            _ => g.bidi(c, *rng.pick(&[1usize, 2]), *rng.pick(&[1usize, 2]), s),
+        };
+    }
+    // each call gets a random amount of progress
+    for k in 0..ncalls {
+        let total = g.calls[k].phases + g.calls[k].req;
+        for _ in 0..rng.below(total as u64 + 1) {
+            g.advance(rng, k);
+        }
+    }
+    let at = g.ops.len();
+    // … and the rest after the trigger, interleaved
+    let mut guard = 0;
+    while guard < 200 {
+        guard += 1;
+        let unf = g.unfinished();
+        if unf.is_empty() {
+            break;
+        }
+        let k = *rng.pick(&unf);
+        g.advance(rng, k);
+    }
+    (g, at)
+}
+
+fn phases(out: &mut Vec<String>, rng: &mut Rng, n: usize) {
+    for i in 0..n {
+        let ncalls = rng.range(2, 5) as usize;
+        let (g, at) = phases_scenario(rng, ncalls);
+        let (buf, payload) = pick_sizes(rng, ncalls);
+        let trig = if i % 5 == 4 { "E" } else { "G" };
+        let mut ops = insert_at(&g.ops, at, &[trig.to_string()]);
+        if rng.chance(1, 3) {
+            ops = sprinkle_time(&ops, rng, 2);
+        }
+        let racy = rng.chance(1, 4);
+        if racy {
+            ops = add_races(&ops, rng, 2);
+        }
+        let class = format!("phases{}{}", trig, if racy { "-race" } else { "" });
+        out.push(format!("{} {}", header(&class, "g", buf, payload, false), ops.join(" ")));
+    }
+}
+
 fn structured(out: &mut Vec<String>, rng: &mut Rng, n: usize, max_conn: usize, max_calls: usize) {
     for i in 0..n {
         let finish = rng.chance(3, 4);
@@ -1053,8 +1403,9 @@ fn disturbed(out: &mut Vec<String>, rng: &mut Rng, n: usize, max_conn: usize, ma
             let at = rng.range(0, ops.len() as u64) as usize;
             // how many connections / calls exist before position `at`
             let nc = ops[..at].iter().filter(|t| t.as_str() == "C").count();
-            let nk = ops[..at].iter().filter(|t| t.starts_with('U') || t.starts_with('S')).count();
-            let tok: Option<String> = match rng.below(10) {
+            let nk = ops[..at].iter().filter(|t| ["U", "S", "Q", "B"].iter().any(|p| t.starts_with(p))).count();
+            let tok: Option<String> = match rng.below(11) {
+                10 if nk > 0 => Some(format!("M{}", rng.below(nk as u64))),
                 0 | 1 => Some("G".into()),
                 2 => Some("E".into()),
                 3 if nc > 0 => Some(format!("D{}", rng.below(nc as u64))),
@@ -1087,7 +1438,7 @@ fn disturbed(out: &mut Vec<String>, rng: &mut Rng, n: usize, max_conn: usize, ma
 /// thorough tier: every scenario up to a length bound over a small alphabet (one connection
 /// pre-offered or not, two calls at most)
 fn exhaustive(out: &mut Vec<String>, max_len: usize) {
-    let alphabet = ["C", "U", "S", "A0", "A1", "G", "E", "D0", "X0", "W61"];
+    let alphabet = ["C", "U", "S", "Q", "B", "A0", "A1", "M0", "M1", "G", "E", "D0", "X0", "W61"];
     fn rec(out: &mut Vec<String>, alphabet: &[&str], cur: &mut Vec<String>, nconn: usize, ncall: usize, left: usize) {
         if !cur.is_empty() {
             out.push(format!("sc:exhaustive g b1024 p10 a0 {}", cur.join(" ")));
@@ -1100,8 +1451,12 @@ fn exhaustive(out: &mut Vec<String>, max_len: usize) {
                 "C" if nconn < 2 => ("C".to_string(), nconn + 1, ncall),
                 "U" if nconn > 0 && ncall < 2 => (format!("U{}:0", nconn - 1), nconn, ncall + 1),
                 "S" if nconn > 0 && ncall < 2 => (format!("S{}:1:5", nconn - 1), nconn, ncall + 1),
+                "Q" if nconn > 0 && ncall < 2 => (format!("Q{}:1:0", nconn - 1), nconn, ncall + 1),
+                "B" if nconn > 0 && ncall < 2 => (format!("B{}:1:0:0", nconn - 1), nconn, ncall + 1),
                 "A0" if ncall > 0 => ("A0".to_string(), nconn, ncall),
                 "A1" if ncall > 1 => ("A1".to_string(), nconn, ncall),
+                "M0" if ncall > 0 && cur.iter().any(|t| t.starts_with('Q') || t.starts_with('B')) => ("M0".to_string(), nconn, ncall),
+                "M1" if ncall > 1 && cur.iter().any(|t| t.starts_with('Q') || t.starts_with('B')) => ("M1".to_string(), nconn, ncall),
                 "G" | "E" | "W61" => (a.to_string(), nconn, ncall),
                 "D0" if nconn > 0 => ("D0".to_string(), nconn, ncall),
                 "X0" if ncall > 0 => ("X0".to_string(), nconn, ncall),
@@ -1137,6 +1492,7 @@ pub fn generate(tier: &str, rng: &mut Rng) -> Vec<String> {
     let mut out = corpus();
     if thorough {
         structured(&mut out, rng, 10000, 4, 6);
+        phases(&mut out, rng, 20000);
         disturbed(&mut out, rng, 90000, 4, 6);
         exhaustive(&mut out, 6);
         // every scenario up to length 5 again, with every step / random steps non-quiescent
@@ -1145,6 +1501,7 @@ pub fn generate(tier: &str, rng: &mut Rng) -> Vec<String> {
         racy_variants(&mut out, rng, &ex);
     } else {
         structured(&mut out, rng, 160, 3, 4);
+        phases(&mut out, rng, 300);
         disturbed(&mut out, rng, 800, 3, 4);
         exhaustive(&mut out, 4);
         let mut ex = Vec::new();
